@@ -378,9 +378,10 @@ def _net_slots(prefix, obj):
                     hid.append((f"{tag}.{mn + '.' if mn else ''}{an}", v))
         # only list objects that persist between two reads of init_dict are mutable state of the network (a list that
         # is re-created on every read cannot be shared; its id() may even be recycled)
-        again = {pth: id(l2) for pth, l2 in _cfg_lists(m.init_dict)}
-        for path, lst in _cfg_lists(m.init_dict):
-            if again.get(path) == id(lst):
+        first, second = m.init_dict, m.init_dict          # both kept alive while they are compared
+        again = dict(_cfg_lists(second))
+        for path, lst in _cfg_lists(first):
+            if again.get(path) is lst:
                 cfg.append((f"{tag}.init_dict.{path}", lst))
     return enc, head, hid, cfg, buf
 
@@ -773,10 +774,28 @@ def coq_aobs(snap_agent, reg, tab):
     return f"(mkAObs {st['index']} {tab.label(st['mut'])} {archs} [{opts}] [{hps}] {counts})"
 
 
+def canon_ptrs(snap):
+    """pointers of all slots of a state, in slot order.  A size list (cfg) that occurs several times INSIDE one agent
+    (an online network and its re-created target may hold the same list object) and in no other agent is made
+    distinct per occurrence: aliasing inside an agent is not what the clone properties are about, aliasing between
+    agents is kept."""
+    owners = {}
+    for ai, ag in enumerate(snap):
+        for s in ag["slots"]:
+            owners.setdefault(tuple(s[2]), set()).add(ai)
+    out = []
+    for ai, ag in enumerate(snap):
+        for si, s in enumerate(ag["slots"]):
+            p = tuple(s[2])
+            if s[1] == "cfg" and len(owners[p]) == 1:
+                p = p + (ai, si)
+            out.append(p)
+    return out
+
+
 def coq_obs(snap, reg, tab):
     """snap: list of agent snapshots (one state).  alias classes are numbered per state, value classes per case."""
-    ptrs = [s[2] for ag in snap for s in ag["slots"]]
-    alias = classes([tuple(p) for p in ptrs])
+    alias = classes(canon_ptrs(snap))
     vals = [tab.val(s[3]) for ag in snap for s in ag["slots"]]
     ags = "; ".join(coq_aobs(ag, reg, tab) for ag in snap)
     return f"(mkObs {_nl(alias)} {_nl(vals)} [{ags}])"
@@ -784,8 +803,7 @@ def coq_obs(snap, reg, tab):
 
 def coq_world(snap, reg, tab, regterm, nvals_total):
     """initial world: locations = alias classes of the real initial population, contents = value classes"""
-    ptrs = [tuple(s[2]) for ag in snap for s in ag["slots"]]
-    alias = classes(ptrs)
+    alias = classes(canon_ptrs(snap))
     vals = [tab.val(s[3]) for ag in snap for s in ag["slots"]]
     heap = {}
     for l, v in zip(alias, vals):
